@@ -379,15 +379,16 @@ def pp_models(prog, raw):
     return M
 
 
-def implementation(prog, text):
-    raw = lex(text)
+def implementation(prog, text, raw=None, max_steps=3000000, extra=None):
+    raw = lex(text) if raw is None else raw
     M = pp_models(prog, raw)
+    if extra: M.update(extra)
     nextf = prog.require_func('next', 'pp.c')
     ppinit = prog.require_func('ppinit')
     TEOF = ev(prog, 'TEOF')
     tokname = {v: k for k, v in cmodel.enum_names(prog, 'tokenkind')}
     def runner(it):
-        it.MAX_STEPS = 3000000
+        it.MAX_STEPS = max_steps
         it.user['pos'] = 0
         it.call(ppinit, [])
         tokobj = it.gobj('tok')
